@@ -186,6 +186,65 @@ fn c18all(seed: u64) -> i32 {
     (bad > 0) as i32
 }
 
+/// Rank/select structures large enough for their sampled search paths (several superblocks per select sample,
+/// more than one sample), hammered with select/rank queries by three real threads.
+fn c18big(seed: u64) -> i32 {
+    use crate::ds::Flat;
+    let mut rng = stream(run_seed(seed, "C18-miri-big", 0), "workload");
+    let n = 20000 + rng.usize_below(6000);
+    let dens = 20 + rng.below(30);
+    let bits: String = (0..n).map(|_| if rng.below(64) < dens { '1' } else { '0' }).collect();
+    let ones = bits.chars().filter(|&c| c == '1').count();
+    let kinds = [Flat::RSWide, Flat::RSNarrow, Flat::DArray0];
+    let kind = kinds[(seed % 3) as usize];
+    let spec = Spec::Bits { kind, bits };
+    let x = match crate::core::catch(|| spec.build()) {
+        Ok(x) => x,
+        Err(_) => return 0,
+    };
+    let mut qs: Vec<Q> = vec![];
+    for _ in 0..36 {
+        qs.push(match rng.below(4) {
+            0 => Q::Select0(rng.usize_below(n - ones)),
+            1 if kind != Flat::DArray0 => Q::Rank1(rng.usize_below(n + 1)),
+            _ => Q::Select1(rng.usize_below(ones)),
+        });
+    }
+    let batch: Vec<(Q, A)> = qs
+        .into_iter()
+        .map(|q| {
+            let a = crate::core::catch(|| x.answer(&q)).unwrap_or_else(A::Panic);
+            (q, a)
+        })
+        .filter(|(_, a)| !matches!(a, A::Panic(_)))
+        .collect();
+    println!("c18big scenario seed={seed} structure={} n={n} ones={ones} queries={}", x.kind(), batch.len());
+    let ok = std::sync::atomic::AtomicBool::new(true);
+    let nq = batch.len();
+    std::thread::scope(|s| {
+        for j in 0..3usize {
+            let x = &x;
+            let batch = &batch;
+            let ok = &ok;
+            s.spawn(move || {
+                for k in 0..nq {
+                    let (q, e) = &batch[(j * 11 + k) % nq];
+                    let got = crate::core::catch(|| x.answer(q)).unwrap_or_else(A::Panic);
+                    if &got != e {
+                        println!("C18-MISMATCH {} thread {j} query {q:?} answered {got:?}, a single thread gets {e:?}", x.kind());
+                        ok.store(false, std::sync::atomic::Ordering::SeqCst);
+                    }
+                }
+            });
+        }
+    });
+    if ok.load(std::sync::atomic::Ordering::SeqCst) {
+        0
+    } else {
+        1
+    }
+}
+
 fn trees_real(prop: &str, seed: u64) -> i32 {
     let rs = run_seed(seed, &format!("{prop}-miri"), 0);
     let mut case = trees::gen_case(prop, rs, Tier::Quick);
@@ -247,6 +306,7 @@ fn main() {
     let code = match args[0].as_str() {
         "c18" => c18(seed),
         "c18all" => c18all(seed),
+        "c18big" => c18big(seed),
         "c02" => trees_real("C02", seed),
         "c03" => trees_real("C03", seed),
         "c09" => c09(seed),
